@@ -88,10 +88,22 @@ def main():
     except C.InfraError as e:
         print('INFRA:', e)
         return 2
-    except Exception:
-        traceback.print_exc()
-        print('INFRA: unexpected exception in the check itself')
-        return 2
+    except Exception as e:
+        # an exception that escapes the property module: if it was RAISED INSIDE the implementation under test (innermost
+        # frame in the taurex package) on an input the module generated, the real code failed on an input of the
+        # quantified domain -> a violation with the traceback as replay; anything raised by our own code is infrastructure
+        tb = traceback.extract_tb(e.__traceback__)
+        inner = tb[-1].filename if tb else ''
+        if '/taurex/' in inner.replace('\\', '/') and '/verif/' not in inner:
+            ctx.violation('uncaught-exception-from-implementation:%s:%s' % (type(e).__name__, os.path.basename(inner)),
+                          'the implementation raised %r inside %s:%d (%s) on a generated input that the check does not '
+                          'guard' % (e, inner, tb[-1].lineno, tb[-1].name), dict(traceback=traceback.format_exc()[-3000:]))
+            aud = locals().get('aud') or dict(obligations=1, discharged=0, failures=['check aborted by an exception from the '
+                                              'implementation'], axioms={}, checker_cmd='', theorems=[])
+        else:
+            traceback.print_exc()
+            print('INFRA: unexpected exception in the check itself')
+            return 2
     finally:
         ctx.close()
 
